@@ -9,7 +9,7 @@
 # time * sample_rate exact (checked in float arithmetic by `_pre`, such inputs are simply not
 # generated); bin * sample_rate a whole number of samples; the half-window floor(win / (2 bin))
 # is either computed exactly (dyadic sample rate) or well away from an integer boundary.
-import itertools
+import itertools, signal, threading
 import numpy as np
 
 from phylib.stats import ccg as G
@@ -101,6 +101,32 @@ def _sym_clauses(S, C, half, tag=''):
 # Cases
 # ------------------------------------------------------------------------------------------------
 
+# Watchdog: the shift loop of correlograms() is data dependent; a broken exit condition must show up as a failed
+# evaluation, not as a checker that never returns.  The alarm is armed only around the calls into phylib, so the
+# TimeoutError is raised from inside a /repo frame and recorded as 'no-unexpected-exception'.  After _MAX_HANGS
+# timeouts the remaining inputs fail the clause 'returns-within-10s' without calling the function again.
+_TIMEOUT_S, _MAX_HANGS = 10.0, 3
+_hangs = [0]
+
+
+def _on_alarm(signum, frame):
+    _hangs[0] += 1
+    raise TimeoutError('no result within %g s' % _TIMEOUT_S)
+
+
+class _watchdog:
+    def __enter__(self):
+        self.armed = threading.current_thread() is threading.main_thread() and hasattr(signal, 'setitimer')
+        if self.armed:
+            signal.signal(signal.SIGALRM, _on_alarm)
+            signal.setitimer(signal.ITIMER_REAL, _TIMEOUT_S)
+
+    def __exit__(self, *a):
+        if self.armed:
+            signal.setitimer(signal.ITIMER_REAL, 0)
+        return False
+
+
 def case_ccg(inp):
     ticks, labels, ids = inp['ticks'], inp['labels'], inp['ids']
     sr, m, w = float(inp['sr']), inp['bin'], inp['win']
@@ -123,15 +149,21 @@ def case_ccg(inp):
         return dict(spike_times=st, spike_clusters=sc, cluster_ids=cid, sample_rate=sr,
                     bin_size=m / sr, window_size=w / sr)
 
-    one = np.asarray(G.correlograms(symmetrize=False, **args()))
+    if _hangs[0] >= _MAX_HANGS:
+        yield 'returns-within-%gs' % _TIMEOUT_S, False, 'not called: %d earlier inputs already timed out' % _hangs[0]
+        return
+    with _watchdog():
+        one = np.asarray(G.correlograms(symmetrize=False, **args()))
     yield _cl('one-sided-shape-is-(n_clusters,n_clusters,half+1)' + tag, one.shape == exp.shape, lambda: (one.shape, exp.shape))
     yield _cl('one-sided-entry-equals-brute-force-pair-count' + tag, one.shape == exp.shape and np.array_equal(one, exp),
               lambda: ('got', one.tolist(), 'expected', exp.tolist()))
-    sym = np.asarray(G.correlograms(symmetrize=True, **args()))
+    with _watchdog():
+        sym = np.asarray(G.correlograms(symmetrize=True, **args()))
     yield from _sym_clauses(sym, exp, half, tag)
     if inp.get('default_sym'):
         # symmetrize defaults to True
-        sym2 = np.asarray(G.correlograms(**args()))
+        with _watchdog():
+            sym2 = np.asarray(G.correlograms(**args()))
         yield _cl('default-is-symmetrised' + tag, np.array_equal(sym2, sym), lambda: sym2.shape)
     yield '__nontrivial__', len(ticks) >= 2, ''
 
@@ -170,7 +202,30 @@ def case_firing_rate(inp):
     yield '__nontrivial__', len(labels) >= 1, ''
 
 
-CASES = {'ccg': case_ccg, 'symmetrize': case_symmetrize, 'firing_rate': case_firing_rate}
+def case_diff_shifted(inp):
+    """_diff_shifted(arr, steps)[i] = arr[i+steps] - arr[i], length n - steps (1 <= steps <= n)."""
+    arr, steps = inp['arr'], inp['steps']
+    assert 1 <= steps <= len(arr)
+    a = np.array(arr, dtype=np.int64)
+    out = np.asarray(G._diff_shifted(a, steps))
+    exp = [arr[i + steps] - arr[i] for i in range(len(arr) - steps)]
+    yield _cl('diff-shifted-is-arr[i+steps]-arr[i]', out.tolist() == exp, lambda: (out.tolist(), exp))
+    yield _cl('diff-shifted-leaves-input-unchanged', a.tolist() == list(arr), lambda: a.tolist())
+
+
+def case_increment(inp):
+    """_increment(arr, indices): arr'[x] = arr[x] + #{t: indices[t] = x}, in place (0 <= indices < len(arr))."""
+    arr, idx = inp['arr'], inp['indices']
+    assert all(0 <= i < len(arr) for i in idx)
+    a = np.array(arr, dtype=np.int32)
+    out = G._increment(a, np.array(idx, dtype=np.int64))
+    exp = [v + sum(1 for t in idx if t == x) for x, v in enumerate(arr)]
+    yield _cl('increment-adds-multiplicity-of-each-index', np.asarray(out).tolist() == exp, lambda: (np.asarray(out).tolist(), exp))
+    yield _cl('increment-is-in-place', a.tolist() == exp, lambda: (a.tolist(), exp))
+
+
+CASES = {'ccg': case_ccg, 'symmetrize': case_symmetrize, 'firing_rate': case_firing_rate,
+         'diff_shifted': case_diff_shifted, 'increment': case_increment}
 
 KNOWN_CLASSES = {}
 
@@ -227,10 +282,10 @@ def enumerate_cases(ctx):
                 (2, 3, 4, id_lists(2, 1), BW2),
                 (3, 3, 4, id_lists(3, 0), BW2),
                 (3, 2, 4, id_lists(3, 1), BW2[:1]),
-                (4, 3, 4, id_lists(4, 0)[:3], BW2[1:]),
+                (4, 3, 3, id_lists(4, 0)[:3], BW2[1:]),
                 (1, 6, 6, [[2]], BW5)]
     else:
-        plan = [(2, 5, 7, one(2), BW8),
+        plan = [(2, 5, 7, one(2), BW5 + [(2, 3)]),
                 (2, 6, 6, one(2), BW2),
                 (2, 4, 6, id_lists(2, 1), BW2),
                 (3, 4, 5, id_lists(3, 0), BW2),
@@ -266,6 +321,7 @@ def enumerate_cases(ctx):
               'on a grid of %d ticks x ALL labelings over 2 clusters x cluster_ids [9,2,1,0] (list) or [0,2] (array, with '
               'tick offset 12345, int32 labels, default symmetrize) x (bin, window) ticks in %s (non-dyadic rates: only '
               'windows whose half-window is not at an integer boundary)' % (RATES, nB, gB, BWB))
+    skipped = {}
     for sr in RATES:
         for n in range(0, nB + 1):
             for tr in trains(n, gB):
@@ -275,10 +331,14 @@ def enumerate_cases(ctx):
                             if base and (n < 2 or (m, w) != BWB[1]):
                                 continue
                             if not _pre([base + x for x in tr], sr, m, w):
+                                skipped[sr] = skipped.get(sr, 0) + 1
                                 continue
                             ctx.run('ccg', {'ticks': list(tr), 'labels': list(lab), 'ids': [0, 2] if base else [9, 2, 1, 0],
                                             'sr': sr, 'bin': m, 'win': w, 'base': base, 'ids_as': 'array' if base else 'list',
                                             'ldtype': 'int32' if base else 'int64', 'default_sym': bool(base)})
+
+    ctx.notes.append('family B inputs not generated because tick/sr*sr != tick in float arithmetic (outside "time*rate '
+                     'exact"), per rate: %s' % (skipped or 'none'))
 
     # ---- family C: seeded random long trains
     NR, NMAX = (40, 120) if quick else (400, 700)
@@ -312,9 +372,9 @@ def enumerate_cases(ctx):
                         'bin': m, 'win': w, 'ldtype': ['int64', 'int32'][r % 2]})
 
     # ---- family D: _symmetrize_correlograms on arbitrary one-sided arrays
-    ctx.scope('_symmetrize_correlograms: ALL arrays (1,1,1..4) over {0,1,2}, (2,2,1) and (2,2,2) over {0,1,2}, (2,2,3) over '
-              '{0,1}; seeded random (3,3,1..4) and (4,4,3) arrays over 0..9')
     shapes = [(1, h, 3) for h in (1, 2, 3, 4)] + [(2, 1, 3), (2, 2, 3 if not quick else 2), (2, 3, 2)]
+    ctx.scope('_symmetrize_correlograms: ALL arrays of shape (n, n, bins) with entries in 0..v-1 for (n, bins, v) in %s; '
+              'seeded random (3,3,1..4) and (4,4,3) arrays over 0..9' % (shapes,))
     for nc, nb, v in shapes:
         for vals in itertools.product(range(v), repeat=nc * nc * nb):
             ctx.run('symmetrize', {'C': np.array(vals).reshape((nc, nc, nb)).tolist()})
@@ -325,9 +385,10 @@ def enumerate_cases(ctx):
     # ---- family E: firing_rate
     NF = 5 if quick else 6
     BD = [(1.0, 10.0), (0.5, 4.0), (0.02, 3.7)] if quick else [(1.0, 10.0), (0.5, 4.0), (0.02, 3.7), (2.0, 1.0), (1e-3, 1234.5)]
-    ctx.scope('firing_rate: ALL labelings of 0..%d spikes over k = 1..3 clusters (k = 4: 0..4 spikes) x cluster_ids in '
-              '{None, every permutation, every permutation with a spike-less id at every position} (k = 4: level 0 lists) '
-              'x (bin, duration) in %s; array and list inputs' % (NF, BD))
+    ctx.scope('firing_rate: ALL labelings of 0..%d spikes over k = 1..2 clusters (k = 3: 0..%d, k = 4: 0..4 spikes) x '
+              'cluster_ids in {None, every permutation, every permutation with a spike-less id at every position} (k = 4: '
+              'None, pool order, reversed, two lists with spike-less ids) x (bin, duration) in %s (k >= 3: one pair per '
+              'id list, rotating); array and list inputs; seeded random labelings of 1..399 spikes' % (NF, NF - 1 if quick else NF, BD))
     for k in (1, 2, 3, 4):
         idl = id_lists(k, 1 if k <= 3 else 0)
         for n in range(0, (NF if k <= 3 else 4) + 1):
@@ -348,3 +409,17 @@ def enumerate_cases(ctx):
         ids = [int(x) for x in rs.permutation(pool[:k + int(rs.randint(0, 3))])]
         ctx.run('firing_rate', {'labels': labels, 'ids': ids if r % 4 else None, 'bin': float(rs.choice([1.0, 0.25, 0.001])),
                                 'duration': float(rs.choice([1.0, 60.0, 1234.5]))})
+
+    # ---- family F: the two array helpers of the shift loop
+    LA, LI = (4, 4) if quick else (5, 5)
+    ctx.scope('_diff_shifted: ALL arrays of 1..%d values over {0,1,3} x steps 1..len; _increment: ALL count vectors of '
+              '1..3 entries over {0,2} x ALL index lists of 0..%d in-range indices (repeats incl.)' % (LA, LI))
+    for n in range(1, LA + 1):
+        for arr in itertools.product((0, 1, 3), repeat=n):
+            for steps in range(1, n + 1):
+                ctx.run('diff_shifted', {'arr': list(arr), 'steps': steps})
+    for n in (1, 2, 3):
+        for arr in itertools.product((0, 2), repeat=n):
+            for li in range(0, LI + 1):
+                for idx in itertools.product(range(n), repeat=li):
+                    ctx.run('increment', {'arr': list(arr), 'indices': list(idx)})
